@@ -11,10 +11,11 @@ import SstModel.Model.Custom
 namespace Sst
 
 /-- C09, filter level: writer with `bw` bits per key, reader with `br` (the reader takes the number
-    of probes from the filter's last byte, so its own setting is irrelevant). `FitsU32` = the bit
-    array is shorter than 512 MiB. -/
+    of probes from the filter's last byte, so its own setting is irrelevant). `FitsBits` = the bit
+    count fits the 64 bits in which the crate computes it since fix D19 (array shorter than 2 EiB; it
+    was `FitsU32`, 512 MiB, before). -/
 theorem C09_bloom (bw br : Nat) (keys : List Bytes) (key : Bytes)
-    (hfit : Bloom.FitsU32 bw keys) (hmem : key ∈ keys) :
+    (hfit : Bloom.FitsBits bw keys) (hmem : key ∈ keys) :
     (Bloom.policy br).keyMayMatch key ((Bloom.policy bw).createFilter keys) = true :=
   bloom_no_false_neg bw keys key hfit hmem
 
@@ -31,10 +32,21 @@ theorem C09_filter_block (p : FilterPolicy)
     ∃ r, FilterBlockReader.new (b.finish p) = .ok r ∧ r.keyMayMatch p off k = .ok true :=
   filter_block_no_false_neg p hp evs b h hsize off k hk
 
-/-- C09 for the crate's bloom policy, writer `bw` / reader `br` bits per key -/
+/-- the same for a policy without false negatives on filters shorter than 4 GiB (all that can occur in
+    a filter block of that size) -/
+theorem C09_filter_block_bounded (p : FilterPolicy)
+    (hp : ∀ ks k, k ∈ ks → (p.createFilter ks).length < 2 ^ 32 → p.keyMayMatch k (p.createFilter ks) = true)
+    (evs : List FbEvent) (b : FilterBlockBuilder) (h : fbRun p {} evs = .ok b)
+    (hsize : (b.finish p).length < 2 ^ 32)
+    (off : Nat) (k : Bytes) (hk : fbAdded off k 0 evs) :
+    ∃ r, FilterBlockReader.new (b.finish p) = .ok r ∧ r.keyMayMatch p off k = .ok true :=
+  filter_block_no_false_neg_bounded p hp evs b h hsize off k hk
+
+/-- C09 for the crate's bloom policy, writer `bw` / reader `br` bits per key: every filter block
+    shorter than 4 GiB (the limit of the format's 32-bit offsets; it was 512 MiB before fix D19) -/
 theorem C09_bloom_filter_block (bw br : Nat)
     (evs : List FbEvent) (b : FilterBlockBuilder) (h : fbRun (Bloom.policy bw) {} evs = .ok b)
-    (hsize : (b.finish (Bloom.policy bw)).length < 2 ^ 29)
+    (hsize : (b.finish (Bloom.policy bw)).length < 2 ^ 32)
     (off : Nat) (k : Bytes) (hk : fbAdded off k 0 evs) :
     ∃ r, FilterBlockReader.new (b.finish (Bloom.policy bw)) = .ok r ∧
       r.keyMayMatch (Bloom.policy br) off k = .ok true :=
